@@ -16,6 +16,7 @@ THREADS = 16
 
 
 def census(w, src, n, threads, **kw):
+    src = "mc_card" if src.startswith("mc_card") else src
     ev = w.call("census", src=src, n=n, threads=threads, u="CENSUS", p="CENSUSPW", v=kw.pop("v"), salt=kw.pop("salt"), **kw)
     if ev.status != "ok":
         return None, ev
@@ -94,6 +95,8 @@ def run(tier, seed):
                 ("pin_salt", 4096 * mult // threads if pi == 0 else 1024, {}),
                 ("mc_seed", 4096 * mult // threads if pi == 0 else 1024, {}),
                 ("mc_card", 64 * mult if pi == 0 else 64, {"dc": 2, "ch": 8, "cw": 8}),
+                ("mc_card_big", 4 * mult if pi == 0 else 4, {"dc": 4, "ch": 26, "cw": 26}),
+                ("mc_card_mid", 8 * mult if pi == 0 else 8, {"dc": 3, "ch": 10, "cw": 12}),
             ]
             for src, n, kw in plan:
                 per_thread, ev = census(w, src, n, threads, v=v0, salt=salt0, **kw)
@@ -164,6 +167,36 @@ def run(tier, seed):
         mon.sample({"source": "mc_card", "first": cards[0].hex()[:32] + "..", "cards": len(cards)}, cap=12)
     else:
         mon.inconc("no matrix cards observed")
+    # ---- larger cards: digits inside one card must not repeat with any period (lag test)
+    for src in ("mc_card_big", "mc_card_mid", "mc_card"):
+        big = flat(0, src) + flat(1, src)
+        if not big:
+            mon.inconc("no cards observed for %s" % src)
+            continue
+        if src != "mc_card":
+            distinct_check(mon, src, big, viol)
+        L = len(big[0])
+        worst = (0.0, 0, 0)
+        for lag in range(1, min(L // 2, 600) + 1):
+            eq = tot = 0
+            for c in big[:24]:
+                for i in range(0, L - lag):
+                    tot += 1
+                    if c[i] == c[i + lag]:
+                        eq += 1
+            if tot >= 100:
+                f = eq / tot
+                if f > worst[0]:
+                    worst = (f, lag, tot)
+        mon.count("card_lags_tested:%s" % src, min(L // 2, 600))
+        if worst[0] > 0.5:
+            viol("%s:digits_repeat_within_card" % src, "%s (%d digits): %.0f%% of digit pairs at distance %d are equal (%d pairs); independent digits give about 10%%" % (
+                src, L, 100 * worst[0], worst[1], worst[2]))
+        else:
+            mon.cell(("card_lag", src))
+        bad = sum(1 for c in big for d in c if d > 9)
+        if bad:
+            viol("%s:digit_out_of_range" % src, "%d digits outside 0..9" % bad)
     # ---- exchanges: b via B, a via A, challenges
     groups = collections.defaultdict(list)
     draws = {"B": [], "A": []}
